@@ -32,7 +32,7 @@ Proof.
   - destruct (Nat.ltb_spec v n) as [Hv|Hv].
     + destruct (size_spec _ _ _ _ _ G v Hv) as (s1 & E & G' & _). rewrite E. eauto.
     + rewrite (size_panic _ _ _ _ _ G v) by auto. reflexivity.
-  - rewrite reset_is_new. eauto.
+  - unfold reset_call. destruct (alloc_overflow m); cbn [negb]; [reflexivity|]. rewrite reset_is_new. eauto.
 Qed.
 
 Lemma no_fuel_exhaustion n es s o : reach n es s -> step s o <> Fuel.
@@ -276,3 +276,14 @@ Qed.
 
 Lemma history_no_fuel n0 ops : run (new n0) ops <> Fuel.
 Proof. apply run_no_fuel with n0 []. constructor. Qed.
+
+(** the value a panicking call leaves behind is what a lookup produces, or the value itself *)
+Lemma panic_state_reach n es s o : reach n es s -> reach n es (panic_state s o).
+Proof.
+  intros R.
+  assert (P : forall u, reach n es (match par s u with Ok (s1, _) => s1 | _ => s end)).
+  { intros u. destruct (par s u) as [[s1 r]| |] eqn:E; auto.
+    apply (reach_step n es s (Par u) s1 (RN r)); auto. cbn [step]. now rewrite E. }
+  destruct o; cbn [panic_state]; auto.
+Qed.
+
